@@ -97,6 +97,13 @@ fn main() {
             let text = std::fs::read_to_string(&args[2]).expect("read");
             let file: replay::ReplayFile = serde_json::from_str(&text).expect("parse");
             work::install_panic_hook();
+            if std::env::var_os("ORXSIM_HEARTBEAT").is_some() {
+                // lets the parent tell "slow" from "reaches no scheduling point any more"
+                std::thread::spawn(|| loop {
+                    std::thread::sleep(std::time::Duration::from_millis(200));
+                    println!("HB {}", sim::progress());
+                });
+            }
             let rec = work::execute(&file.cfg, 1);
             println!("T {:016x} {:016x}", rec.sim.event_hash, work::transcript_hash(&rec));
         }
